@@ -223,95 +223,4 @@ theorem parse_rfc3339Text (Y m d H Mi S : Nat) (ms : Option Nat) (neg : Bool) (o
 
 
 
-theorem splitOnce_none' (c : UInt8) (xs : Bytes) (h : ∀ x ∈ xs, x ≠ c) : splitOnce c xs = none := by
-  induction xs with
-  | nil => rfl
-  | cons x xs ih =>
-    have hx : x ≠ c := h x (List.mem_cons_self ..)
-    simp [splitOnce, hx, ih (fun y hy => h y (List.mem_cons_of_mem _ hy))]
-
-theorem digit_ne (c : UInt8) (hc : isDigit c = true) (x : UInt8) (hx : x.toNat < 48) : c ≠ x := by
-  rintro rfl
-  simp only [isDigit, Bool.and_eq_true, decide_eq_true_eq] at hc
-  omega
-
-theorem parseUnsignedStr_fmtDec (max n : Nat) (h : n ≤ max) : parseUnsignedStr max (fmtDec n) = some n := by
-  have hne := fmtDec_ne_nil n
-  have hall := fmtDec_all_digits n
-  have hv := digitsVal_fmtDec_zero n
-  generalize fmtDec n = l at hne hall hv
-  match l, hne, hall, hv with
-  | [c], _, hall, hv =>
-    have hc := hall c (List.mem_cons_self ..)
-    simp only [digitsVal, hc, if_true, Nat.zero_mul, Nat.zero_add, Option.some.injEq] at hv
-    simp [parseUnsignedStr, hc, hv]
-  | c :: c2 :: r, _, hall, hv =>
-    have hc := hall c (List.mem_cons_self ..)
-    have h43 : c ≠ 43 := digit_ne c hc 43 (by decide)
-    simp [parseUnsignedStr, h43, hv, h]
-
-theorem epoch_whole_roundtrip (unix : Int) (off : Int) (h0 : 0 ≤ unix) (h1 : unix ≤ 253402300799) :
-    ∃ txt, formatEpochWhole ⟨unix, 0, off⟩ = some txt ∧ parseEpochSeconds txt = some ⟨unix, 0, 0⟩ := by
-  refine ⟨fmtDec unix.natAbs, ?_, ?_⟩
-  · have : ¬ unix < 0 := by omega
-    simp [formatEpochWhole, fmtInt, this]
-  · have hsp : splitOnce 46 (fmtDec unix.natAbs) = none :=
-      splitOnce_none' _ _ (fun x hx => digit_ne x (fmtDec_all_digits _ x hx) 46 (by decide))
-    have hp := parseUnsignedStr_fmtDec 18446744073709551615 unix.natAbs (by omega)
-    have h2 : ¬ unix.natAbs > 9223372036854775807 := by omega
-    have h3 : ¬ unix > unixMax := by unfold unixMax; omega
-    have h4 : ((unix.natAbs : Nat) : Int) = unix := by omega
-    simp only [parseEpochSeconds, hsp, hp, h2, if_false, h4, h3]
-
-
-
-theorem splitOnce_append' (c : UInt8) (xs ys : Bytes) (h : ∀ x ∈ xs, x ≠ c) :
-    splitOnce c (xs ++ c :: ys) = some (xs, ys) := by
-  induction xs with
-  | nil => simp [splitOnce]
-  | cons x xs ih =>
-    have hx : x ≠ c := h x (List.mem_cons_self ..)
-    simp [splitOnce, hx, ih (fun y hy => h y (List.mem_cons_of_mem _ hy))]
-
-theorem parseUnsignedStr_pad3 (ms : Nat) (h : ms < 1000) : parseUnsignedStr 4294967295 (pad3 ms) = some ms := by
-  have h1 : ms / 100 % 10 < 10 := by omega
-  have h2 : ms / 10 % 10 < 10 := by omega
-  have h3 : ms % 10 < 10 := by omega
-  have h43 : digitChar (ms / 100 % 10) ≠ 43 := digitChar_ne _ h1 43 (by decide)
-  have hv : digitsVal (pad3 ms) 0 = some ms := by
-    simp only [pad3, digitsVal, isDigit_digitChar h1, isDigit_digitChar h2, isDigit_digitChar h3, if_true,
-      digitChar_val h1, digitChar_val h2, digitChar_val h3]
-    congr 1; omega
-  unfold parseUnsignedStr
-  simp only [pad3] at hv ⊢
-  simp only [h43, if_false, hv]
-  have : ms ≤ 4294967295 := by omega
-  simp [this]
-
-theorem ms_mod (ms : Nat) (h2 : ms < 1000) : ms * 1000000 % 4294967296 = ms * 1000000 := Nat.mod_eq_of_lt (by omega)
-theorem ms_div (secs ms : Nat) (h2 : ms < 1000) : (secs * 1000000000 + ms * 1000000) / 1000000000 = secs := by omega
-theorem ms_rem (secs ms : Nat) (h2 : ms < 1000) : (secs * 1000000000 + ms * 1000000) % 1000000000 = ms * 1000000 := by
-  omega
-
-/-- decimal epoch seconds with a millisecond fraction are decoded to the value they denote -/
-theorem parseEpoch_ms (secs ms : Nat) (h1 : secs ≤ 253402300799) (h2 : ms < 1000) :
-    parseEpochSeconds (fmtDec secs ++ 46 :: pad3 ms) = some ⟨(secs : Int), ms * 1000000, 0⟩ := by
-  have hsp : splitOnce 46 (fmtDec secs ++ 46 :: pad3 ms) = some (fmtDec secs, pad3 ms) :=
-    splitOnce_append' _ _ _ (fun x hx => digit_ne x (fmtDec_all_digits _ x hx) 46 (by decide))
-  have hp := parseUnsignedStr_fmtDec 18446744073709551615 secs (by omega)
-  have hf := parseUnsignedStr_pad3 ms h2
-  have hlen : (pad3 ms).length = 3 := rfl
-  have g1 : ¬ secs > 9223372036854775807 := by omega
-  have e1 : (secs * 1000000000 + ms * 1000000 % 4294967296) / 1000000000 = secs := by
-    rw [ms_mod ms h2, ms_div secs ms h2]
-  have e2 : (secs * 1000000000 + ms * 1000000 % 4294967296) % 1000000000 = ms * 1000000 := by
-    rw [ms_mod ms h2, ms_rem secs ms h2]
-  have g2 : ¬ ((secs : Nat) : Int) > unixMax := by unfold unixMax; omega
-  have hm : fracMul 3 = some 1000000 := rfl
-  have hep : epochFromNanos (secs * 1000000000 + ms * 1000000 % 4294967296) = some ⟨(secs : Int), ms * 1000000, 0⟩ := by
-    unfold epochFromNanos
-    rw [e1, e2, if_neg g2]
-  simp only [parseEpochSeconds, hsp, hp, g1, if_false, hf, hlen, hm, hep]
-
-
 end S3V.Dto
